@@ -29,7 +29,8 @@ PROBES = ["pred_chunk_lacks_fold", "one_row_last_chunk", "spectrum_split_across_
           "spectrum_within_one_conf_chunk", "subsampled", "rowgroup_inside_chunk", "spill_files>=2",
           "switch_in_get_rows", "switch_in_save_chunks", "parquet", "workers>=8", "dedup_off", "rollup_off",
           "multi_file", "order_sensitive_learner", "sklearn_learner", "merge_chunk_small", "protein_level",
-          "pep_files_compared_strictly", "pep_files_checked_for_shape_only", "feature_with_missing_values", "ensemble_mode", "proba_only_learner"]
+          "pep_files_compared_strictly", "pep_files_checked_for_shape_only", "feature_with_missing_values", "ensemble_mode", "proba_only_learner",
+          "spectrum_key_with_missing_values"]
 RULE = (
     "Each scenario = one seeded tie-free data set + configuration (learner, folds, seeds, rollup/decoy/dedup "
     "switches) executed as reference (text, knobs > file, 1 worker, no threads) and as perturbed execution "
@@ -112,6 +113,8 @@ def make_scenario(seed):
         "glob_seed": rng.getrandbits(16),
     }
     scn = {"property": PROPERTY, "seed": seed, "data": dp, "cfg": cfg, "pert": pert}
+    if "ExpMass" in dp["spec_extra"] and dp["max_per_spectrum"] > 1 and rng.random() < 0.4:
+        dp["nan_key"] = rng.choice([0.1, 0.25])  # some spectra lack the measured mass (a missing value in the spectrum key)
     if rng.random() < 0.25 and cfg["conf"]["rollup"]:
         scn["fasta_seed"] = rng.getrandbits(16)  # protein-level results as well
     return scn
@@ -324,6 +327,7 @@ def run_scenario(scn, workdir):
         "merge_chunk_small": int(kn.get("MERGE_SORT_CHUNK_SIZE", 10**9) < 10),
         "protein_level": int(scn.get("fasta_seed") is not None),
         "feature_with_missing_values": int(bool(scn["data"].get("nan_feature"))),
+        "spectrum_key_with_missing_values": int(bool(scn["data"].get("nan_key"))),
         "ensemble_mode": int(bool(cfg.get("ensemble"))),
     }
     rg = pert.get("row_group")
@@ -492,6 +496,8 @@ def shrink_candidates(scn):
         c = clone(scn); c["data"]["level_cols"] = []; yield c
     if dp.get("nan_feature"):
         c = clone(scn); c["data"]["nan_feature"] = 0; yield c
+    if dp.get("nan_key"):
+        c = clone(scn); c["data"]["nan_key"] = 0; yield c
     for x in list(dp["spec_extra"]):
         c = clone(scn); c["data"]["spec_extra"] = [y for y in dp["spec_extra"] if y != x]; yield c
     if dp["n_spectra"] > 70:
